@@ -47,7 +47,8 @@ def strategy_(draw, tier):
         y = X @ gen.normal(draw, (f, g)) + draw(st.sampled_from([0.0, 0.3, 2.0])) * gen.normal(draw, (n, g))
     return {"X": X, "y": y, "planted": planted, "projector": draw(st.booleans()),
             "estimator": draw(st.sampled_from(["default", "lr_noint", "ridge"])),
-            "Xnew": gen.normal(draw, (5, f)) * draw(st.sampled_from([0.1, 1.0, 30.0])), "cseed": draw(gen.SEEDS)}
+            "Xnew": gen.normal(draw, (5, f)) * draw(st.sampled_from([0.1, 1.0, 30.0])), "cseed": draw(gen.SEEDS),
+            "prior_use": draw(st.booleans())}
 
 
 def strategy(tier):
@@ -74,8 +75,16 @@ def check(case, ctx):
             "planted=%s" % case["planted"], "estimator=" + case["estimator"])
     est = {"default": None, "lr_noint": LinearRegression(fit_intercept=False), "ridge": Ridge(alpha=1e-10, fit_intercept=False)}[case["estimator"]]
     rng = np.random.default_rng(case["cseed"])
+    if est is not None and case.get("prior_use", True):
+        # the same estimator objects were used before, on other data of the same shape: nothing may carry over
+        with ctx.lib("prior-fit"):
+            o = OR(use_orthogonal_projector=proj, linear_estimator=est)
+            o.fit(rng.normal(size=X.shape), rng.normal(size=y.shape))
+            ctx.cls("prior_use")
+    else:
+        o = OR(use_orthogonal_projector=proj, linear_estimator=est)
     with ctx.lib("fit"):
-        o = OR(use_orthogonal_projector=proj, linear_estimator=est).fit(X, y)
+        o.fit(X, y)
         W = np.asarray(o.coef_).T
         pred = o.predict(X)
         pn = o.predict(case["Xnew"])
